@@ -23,6 +23,7 @@ SHARD_TIMEOUT = {"quick": 400, "thorough": 3000}
 
 STR_ELEMS = ["'a'", "'b'", "'ab'", "'B'", "''", "'z'", "'é'", "'10'", "'9'", "'a b'"]
 MIX_ELEMS = ["1", "2", "10", "-3", "1.5", "0.5", "7", "100", "42"]
+DEC_ELEMS = ["0.1", "0.2", "0.7", "0.3", "10000000000000000.0", "-10000000000000000.0", "1.1", "2.2", "3.3", "1"]      # sums that depend on the order of addition
 
 # (name, program template); {S} a set literal, {S2} a second one, {M} a map literal, {L} list of the set elements
 PATHS = [
@@ -68,6 +69,21 @@ PATHS = [
     ("sorted-key-constant", "sorted({S}, key = fn(x) 1)"), ("sorted-key-ties-ints", "sorted(<< 16, 8, 0, 24, 3 >>, key = fn(x) x % 8)"),
     ("sorted-map-keys-ties", "sorted(set({M}), key = fn(x) 0)"), ("min-key-ties", "min(list({S}), key = fn(x) 0)"),
     ("grouped-set", "grouped(sorted({S}, key = fn(x) length(string(x))), key = fn(x) length(string(x)))"),
+    # sets and maps handed directly to library functions written for lists (an error is a fine outcome, as long as it
+    # is the same error in every process and for every construction order)
+    ("direct-sum", "sum({S})"), ("direct-sum-map", "sum({M})"), ("direct-mean", "mean({S})"), ("direct-median", "median({S})"), ("direct-prod", "prod({S})"),
+    ("direct-min", "min({S})"), ("direct-max", "max({S})"), ("direct-join", "join({S}, '|')"), ("direct-reverse", "reverse({S})"),
+    ("direct-first", "first({S})"), ("direct-last", "last({S})"), ("direct-unique", "unique({S})"), ("direct-flatten", "flatten({S})"),
+    ("direct-flatten-nested", "flatten([{S}, [{S2}]])"), ("direct-enumerate", "enumerate({S})"), ("direct-zip", "zip({S}, {S2})"),
+    ("direct-filter", "filter({S}, fn(x) TRUE)"), ("direct-map-list", "map_list({S}, fn(x) [x])"), ("direct-reduce", "reduce({S}, fn(a, b) [a, b])"),
+    ("direct-for-each", "def acc = []; for_each({S}, fn(x) append(acc, x)); acc"), ("direct-find", "find({S}, 'a')"), ("direct-chunks", "chunks({S}, 2)"),
+    ("direct-pairs", "pairs({S})"), ("direct-grouped", "grouped({S})"), ("direct-any", "any({S}, fn(x) x == 'a')"), ("direct-count", "count({S}, 'a')"),
+    ("direct-sublist", "sublist({S}, 0, 2)"), ("direct-index", "{S}[0]"), ("direct-slice", "{S}[0 to 2]"), ("direct-string-fns", "[upper(string({S})), length(string({M}))]"),
+    ("direct-append-all-list", "append_all([0], {M})"), ("direct-s-format", "def v = {S}; s('{v#30}')"), ("direct-sprintf", "sprintf('{0} {1}', {S}, {M})"),
+    ("direct-zip-map", "string(zip_map({S}, {S2}))"), ("direct-map-of-set", "string(map({S}))"), ("direct-sorted-map", "sorted({M})"),
+    ("direct-label-data", "string(label_data({S}, {S2}))"), ("direct-interval-sum", "sum([x for x in {S}])"), ("direct-reduce-add", "reduce(list({S}), fn(a, b) a + b)"),
+    ("wrong-named-args", "sorted({L}, kee = 1, reverse_ = 2, zz = 3)"), ("wrong-named-args-spread", "def f(a) a; f(...<<<'x' => 1, 'yy' => 2, 'b' => 3>>>)"),
+    ("wrong-named-args-lambda", "(fn(p, q = 1) p)(1, zeta = 1, alpha = 2, mid = 3)"), ("missing-members", "def o = <*a = 1*>; [o->zz, o->yy]"),
     ("type-checks", "[x is string for x in {S}]"), ("contains", "[contains({S}, 'a'), 'a' in {M}]"), ("if-empty", "[{S} is empty, {M} is not empty]"),
 ]
 
@@ -87,7 +103,7 @@ PUN_ELEMS = ["TRUE", "1", "FALSE", "0", "'ab'", "//ab//", "2", "'1'", "'TRUE'", 
 def gen_collections(r):
     """element lists for S, S2, M (as source strings)"""
     k = r.random()
-    pool = STR_ELEMS if k < 0.5 else (MIX_ELEMS if k < 0.8 else PUN_ELEMS)
+    pool = STR_ELEMS if k < 0.4 else (MIX_ELEMS if k < 0.65 else (PUN_ELEMS if k < 0.8 else DEC_ELEMS))
     a = r.sample(pool, r.randint(2, 5))
     b = r.sample(pool, r.randint(2, 4))
     keys = r.sample(STR_ELEMS if r.random() < 0.7 else MIX_ELEMS, r.randint(2, 4))
@@ -124,7 +140,8 @@ class Runner:
         if o.kind == "value":
             res = ("value", core.safe_str(o.value, 2000))
         elif o.kind == "rte":
-            res = ("error", core.safe_str(getattr(o.exc, "value", None), 500))
+            # ("the same ... error": value and message text)
+            res = ("error", core.safe_str(getattr(o.exc, "value", None), 500) + " :: " + core.safe_str(getattr(o.exc, "msg", ""), 300))
         else:
             res = (o.kind, type(o.exc).__name__ if o.exc is not None else "")
             if o.kind == "hang":
